@@ -16,7 +16,7 @@ def session(kind, rng, length, ops_filter=None):
     cls = eqsig.AccSignal if kind == "AccSignal" else eqsig.Signal
     n = int(rng.integers(8, 120))
     dt = float(rng.choice([0.01, 0.02, 0.005, 0.5]))
-    x = _rec(n, rng)
+    x = _rec(n, rng) * float(rng.choice([1.0, 1.0, 1e-9, 1e6]))
     o = cls(x.copy(), dt)
     ev = [{"op": "construct", "vals": enc_seq(x), "dt": enc(dt)}]
 
